@@ -48,7 +48,8 @@ func BuildOverlay(rtFile string, harnessFiles map[string][]string, pkgNames map[
 			if err != nil {
 				return nil, err
 			}
-			ov[filepath.Join(dir, filepath.Base(f))] = src
+			base, src := SharedHarnessFile(f, src, name)
+			ov[filepath.Join(dir, base)] = src
 		}
 	}
 	return ov, nil
@@ -336,3 +337,13 @@ func HarnessFuncs(pkg *ssa.Package, re *regexp.Regexp) []*ssa.Function {
 }
 
 var _ = types.Typ
+
+// SharedHarnessFile maps files of the shared runtime directory (harness/vrt) into the target package:
+// the package clause is rewritten and the file is named zz_verif_<base>.
+func SharedHarnessFile(path string, src []byte, pkgName string) (string, []byte) {
+	base := filepath.Base(path)
+	if strings.Contains(path, "/harness/vrt/") {
+		return "zz_verif_" + base, rewritePackageClause(src, pkgName)
+	}
+	return base, src
+}
